@@ -512,6 +512,7 @@ int cif_container_get_frame(
     } else {
         int result;
 
+        temp->code = NULL;
         temp->code_orig = NULL;
         result = cif_normalize_name(code, -1, &(temp->code), CIF_INVALID_FRAMECODE);
         if (result != CIF_OK) {
